@@ -92,6 +92,7 @@ def placements(schema, located, variables, root, overrides):
         if len(p) == 1:
             out.append({p: "raise"})
             out.append({p: "none"})
+            out.append({p: "raise_coercible"})
         elif fd.type[0] == "nn":
             out.append({p: "none"})
             out.append({p: "raise"})
